@@ -7,3 +7,6 @@ package program
 //vc:func (*Config).GetUserPass
 //vc:  set loginPass = result1
 //vc:  ensures[C11] loginPass == result1
+
+// ---- C16 ----
+//vc:maprange[C16] LoadConfig 1 "for key, val := range defaultVals" first-match inserts default values under their own key; an error is impossible for the constant defaults
